@@ -209,6 +209,9 @@ fn main() {
     let mut vs: Vec<String> = vec![];
     let mut ts: Vec<String> = vec![];
     let mut counts: Vec<usize> = vec![0; nshards];
+    // evaluation weight of a shard in bytes-of-text equivalents (Coq parses ~50 KB/s;
+    // a case that makes the model iterate is charged for the iterations)
+    let mut wts: Vec<usize> = vec![0; nshards];
     for _ in 0..nshards {
         let mut v = String::new();
         writeln!(v, "From WT.Model Require Import Base.\nFrom WT.Corr Require Import CorrBase {}.", corr_module).unwrap();
@@ -223,12 +226,12 @@ fn main() {
         let k = {
             let mut best = 0usize;
             for q in 1..open {
-                if vs[q].len() < vs[best].len() {
+                if wts[q] < wts[best] {
                     best = q;
                 }
             }
             // open another shard only when every open one is already large
-            if vs[best].len() > 120_000 && open < nshards {
+            if wts[best] > 120_000 && open < nshards {
                 open += 1;
                 open - 1
             } else {
@@ -261,7 +264,9 @@ fn main() {
             vs[k].push_str(";\n");
         }
         counts[k] += 1;
+        let before = vs[k].len();
         write!(vs[k], " ({}, {}, {})", c.f, coq_lists(&c.args), coq_lists(&out)).unwrap();
+        wts[k] += vs[k].len() - before + suites::extra_weight(c.f, &c.args);
         writeln!(ts[k], "{} {} | {} | {}", c.f, args_str(&c.args), args_str(&out), c.label).unwrap();
     }
     for k in 0..nshards {
